@@ -72,8 +72,115 @@ func (ex *Exec) CallFn(fn *ssa.Function, args []Value, free []Value) Value {
 	if fn.Name() == "init" && fn.Pkg != nil && fn.Signature.Recv() == nil {
 		return nil // initialisers of packages outside the module are not executed
 	}
+	if v, ok := ex.havoc(fn, args); ok {
+		ex.Stats.Stubs["havoc "+name]++
+		return v
+	}
 	ex.Inconclusive("unmodelled callee " + name)
 	return nil
+}
+
+// purePkgs are std packages whose exported functions have no side effects: a function of these
+// packages that has no precise stub is over-approximated by an uninterpreted function of its
+// scalar arguments (any result is possible, equal arguments give equal results). This can only add
+// behaviours, so a "holds" verdict stays sound; spurious counterexamples are filtered by replay.
+var purePkgs = map[string]bool{"strings": true, "bytes": true, "strconv": true, "unicode": true, "unicode/utf8": true,
+	"path": true, "path/filepath": true, "sort": true, "errors": true, "slices": true, "maps": true, "cmp": true}
+
+// envReadFns are environment reads: arbitrary result, no effect on the file system.
+var envReadFns = map[string]bool{"os.ReadFile": true, "os.Stat": true, "os.Lstat": true, "os.Getwd": true, "os.Getenv": true,
+	"os.LookupEnv": true, "os.ReadDir": true, "io/ioutil.ReadFile": true, "os.Executable": true, "os.Hostname": true, "os.Getpid": true}
+
+func (ex *Exec) havoc(fn *ssa.Function, args []Value) (Value, bool) {
+	if fn.Pkg == nil || fn.Signature.Recv() != nil {
+		return nil, false
+	}
+	pkg := fn.Pkg.Pkg.Path()
+	full := pkg + "." + fn.Name()
+	isEnv := envReadFns[full]
+	if !purePkgs[pkg] && !isEnv {
+		return nil, false
+	}
+	if pkg == "path/filepath" {
+		switch fn.Name() {
+		case "Join", "Dir", "Base", "Ext", "Clean", "IsAbs", "ToSlash", "FromSlash", "VolumeName", "Rel", "Split":
+		default:
+			return nil, false // Walk, Glob, Abs, EvalSymlinks touch the file system
+		}
+	}
+	var argTerms []*smt.Term
+	var sorts []string
+	scalar := true
+	for _, a := range args {
+		switch x := a.(type) {
+		case *smt.Term:
+			argTerms, sorts = append(argTerms, x), append(sorts, x.Sort)
+		case Bytes:
+			argTerms, sorts = append(argTerms, x.S), append(sorts, x.S.Sort)
+		case Opaque:
+			argTerms, sorts = append(argTerms, x.T), append(sorts, x.T.Sort)
+		case Slice:
+			if x.Arr != nil {
+				scalar = false
+			}
+		case NilV, Iface:
+		default:
+			scalar = false
+		}
+	}
+	if isEnv {
+		ex.Emit("EnvRead", full, args...)
+		scalar = false // the environment may answer differently each time
+	}
+	res := fn.Signature.Results()
+	one := func(i int, t types.Type) (Value, bool) {
+		name := fmt.Sprintf("havoc$%s$%d", full, i)
+		mk := func(sort string) *smt.Term {
+			if scalar && len(argTerms) > 0 {
+				return ex.C.UF(name, sorts, sort, argTerms...)
+			}
+			return ex.C.Fresh(name, sort)
+		}
+		switch u := t.Underlying().(type) {
+		case *types.Basic:
+			switch {
+			case u.Info()&types.IsString != 0:
+				return mk(smt.String), true
+			case u.Info()&types.IsBoolean != 0:
+				return mk(smt.Bool), true
+			case u.Info()&types.IsInteger != 0:
+				return mk(smt.Int), true
+			}
+		case *types.Slice:
+			if b, ok := u.Elem().Underlying().(*types.Basic); ok && b.Kind() == types.Uint8 {
+				return Bytes{S: mk(smt.String)}, true
+			}
+		case *types.Interface:
+			if t.String() == "error" {
+				if ex.Branch(ex.C.Fresh(name+"$fails", smt.Bool)) {
+					return ex.NewError(ex.C.Fresh(name+"$msg", smt.String), "havoc"), true
+				}
+				return Iface{}, true
+			}
+		}
+		// any other result type: an opaque value (usable only as an argument of further pure calls)
+		return Opaque{T: mk(smt.Val)}, true
+	}
+	switch res.Len() {
+	case 0:
+		return nil, true
+	case 1:
+		return one(0, res.At(0).Type())
+	}
+	tp := make(Tuple, res.Len())
+	for i := range tp {
+		v, ok := one(i, res.At(i).Type())
+		if !ok {
+			return nil, false
+		}
+		tp[i] = v
+	}
+	return tp, true
 }
 
 func (ex *Exec) run(fn *ssa.Function, args []Value, free []Value) (ret Value) {
